@@ -371,6 +371,11 @@ let step_preds : (string * (vconfig -> fstep -> bool)) list = [
 ]
 let trace_preds : (string * (vconfig -> fstep list -> bool)) list = [
   ("c10_step_ok", c10_step_ok);
+  ("c05_window_ok2", c05_window_ok2);
+  ("c05_rto_exit_ok2", c05_rto_exit_ok2);
+  ("c05_zero_window_ok_open", c05_zero_window_ok_open);
+  ("c05_zero_window_strict_or_d16_open", c05_zero_window_strict_or_d16_open);
+  ("c05_monitor_core_ok", c05_monitor_core_ok);
   ("c04_vsock_ack_ok", c04_vsock_ack_ok);
   ("c04_consumed_honest_ok", c04_consumed_honest_ok);
   ("c05_slow_start_ok", c05_slow_start_ok);
